@@ -31,7 +31,7 @@ TESTS = ["@", "@.a", "@.b", "@[0]", "@[-1]", "@[-2]", "@.*", "@..a", "@[?@.a]", 
          "@[?@ == 1]", "match(@.a, 'a')", "search(@, 'a')"]
 CMPS = ["@.a == 1", "@.a == $.a", "@ == null", "@ == false", "@ == 0", "@ == ''", "@.a < @.b",
         "count(@.*) == 1", "length(@) == 1", "value(@.*) == 1", "1 == 1", "@[0] != @[1]", "@.a >= 1",
-        "@[-1] == 1", "@[-2] == @[0]", "length(@.a) < 2"]
+        "@[-1] == 1", "@[-2] == @[0]", "length(@.a) < 2", "count(@.*) == 0"]
 SMALL_T = ["@", "@.a", "@[0]", "$.a", "@.*"]
 SMALL_C = ["@.a == 1", "@ == 0", "1 == 2"]
 
